@@ -15,7 +15,7 @@
     lit    := null | (var n) | (int z) | (float h) | (str s) | (bool b) | (enum n) | (list lit…) | (obj (k lit)…)
     json   := null | (num h) | (str s) | (bool b) | (list json…) | (obj (k json)…)
     cv     := null | (int z) | (half h) | (str s) | (bool b) | (enum n) | (list cv…) | (obj (k cv)…)
-    outcome:= invalid | reqerr | fielderr | (ok (name goval)…)
+    outcome:= invalid | reqerr | fielderr | swallowed | (ok (name goval)…)
 -/
 import ApiFu.Common.Sexp
 import ApiFu.Common.Loop
@@ -157,6 +157,7 @@ def outcomeSexp : Outcome → Sexp
   | .invalid => .atom "invalid"
   | .reqErr => .atom "reqerr"
   | .fieldErr => .atom "fielderr"
+  | .dropped => .atom "swallowed"
   | .invoked args => Sexp.node "ok" (args.map fun p => .list [.atom p.1, goValSexp p.2])
 
 def resSexp : Option GoVal → String
